@@ -27,7 +27,7 @@ ANCHORS = {"matrix_functions.py": ["matrix_eigenvectors", "_compute_orthogonal_i
 C = 64.0
 SPECTRA = ["distinct", "clustered", "repeated", "rank_deficient", "geometric"]
 STRUCTURES = ["dense", "dense", "dense", "dense", "diagonal_unflagged", "permuted_diagonal", "block_diagonal", "identity_multiple", "zero"]
-ESTIMATES = ["zero", "exact_sorted", "exact_unsorted", "haar", "rotated"]
+ESTIMATES = ["zero", "exact_sorted", "exact_unsorted", "haar", "rotated", "identity", "permutation", "block_orthogonal"]
 
 
 def gen_cases(tier, seed):
@@ -161,6 +161,13 @@ def run_case(case):
             Q0 = VA[:, torch.randperm(n, generator=gen)]
         elif est_kind == "haar":
             Q0 = matref.haar(n, gen)
+        elif est_kind == "identity":  # orthonormal estimates with exact zero entries (sparse / one-hot early gradients)
+            Q0 = torch.eye(n, dtype=D)
+        elif est_kind == "permutation":
+            Q0 = torch.eye(n, dtype=D)[:, torch.randperm(n, generator=gen)]
+        elif est_kind == "block_orthogonal":
+            k = max(1, n // 2)
+            Q0 = torch.block_diag(matref.haar(k, gen), matref.haar(n - k, gen)) if n - k > 0 else matref.haar(n, gen)
         else:
             G = torch.randn(n, n, generator=gen, dtype=D) * 1e-2
             Q0 = torch.linalg.qr(VA @ (torch.eye(n, dtype=D) + (G - G.T))).Q
@@ -182,18 +189,21 @@ def run_case(case):
         rq = torch.einsum("ij,ik,kj->j", outd, Ad, outd)
         if float((rq[:-1] - rq[1:]).max()) > C * n * u * nA:
             raise Violation("QR method: columns not ordered by ascending Rayleigh quotient", rayleigh=[float(x) for x in rq[:8]], **desc)
-        matched, k, nv, worst = matref.match_orth_iter(outd, Ad, Q0t.to(D), K, u, gen=gen)
-        if not matched:
-            raise Violation(f"QR method: output is not the orthogonal-iteration update of the estimate for any k in 1..{K}", **desc)
-        counters["qr_matched"] += 1
-        counters["qr_nonvacuous_clusters"] += nv
-        counters["max_ratio_cluster"] = max(counters["max_ratio_cluster"], worst)
         if K == 1:
             # a single step is backward stable whatever the conditioning (incl. rank-deficient A@Q, unstable fixed points)
             okb, first = matref.qr_backward_check(outd, Ad, Q0t.to(D), u)
             counters["qr_backward_checked"] += 1
+            counters["qr_matched"] += 1
+            matched, k, nv, worst = True, 1, 0, 0.0
             if not okb:
                 raise Violation("QR method (1 iteration): out^T (A Q0) is not a row-permuted upper-triangular matrix: not a QR factor of A@estimate", first_nonzero_per_row=first, **desc)
+        else:
+            matched, k, nv, worst = matref.match_orth_iter(outd, Ad, Q0t.to(D), K, u, gen=gen)
+            if not matched:
+                raise Violation(f"QR method: output is not the orthogonal-iteration update of the estimate for any k in 1..{K}", **desc)
+            counters["qr_matched"] += 1
+            counters["qr_nonvacuous_clusters"] += nv
+            counters["max_ratio_cluster"] = max(counters["max_ratio_cluster"], worst)
         if nv == 0 and K != 1:
             counters["qr_vacuous"] += 1
         else:
